@@ -3,6 +3,7 @@ pub mod c15;
 pub mod c15_text;
 pub mod c15_bin;
 pub mod c15_codec;
+pub mod c15_rec;
 pub mod c07;
 pub mod c07_enc;
 pub mod c07_sam;
